@@ -391,12 +391,25 @@ def oracle(line, I, O):
     return bad
 
 
+def model_agrees(I, O):
+    """the Lean model driven with the same readings must reproduce the real outputs exactly —
+    including the WRONG tallies / missing counts of the two known defects"""
+    _, om = vlib.run_lines([vlib.model_exe("C17")], I, timeout=600)
+    return vlib.first_diff(O, om)
+
+
+PROBE_DIVERGED = []
+
+
 def single_slot_probe(ctx, exe, rng):
     """ActionDiagnostic on a state with ONE track slot (host): ActionSequence::step's
     skip_post_action skips it on every step."""
     line = ("run prob=simple slots=1 prims=2 seed=%d events=1 streams=1 order=none maxsteps=8 "
             "warm=0 adiag=1 sdiag=0 cbs=raw:1ffff:-:0" % rng.below(1 << 20))
     I, O, _ = run_harness(exe, line)
+    d = model_agrees(I, O)
+    if d is not None:
+        PROBE_DIVERGED.append({"scenario": line, "op_index": d[0], "impl": d[1][:400], "model": d[2][:400]})
     for k, key, msg in oracle(line, I, O):
         if key.startswith("action-diagnostic"):
             ctx.violation(
@@ -418,9 +431,13 @@ def own_volume_calo_probe(ctx, exe, rng):
     base = "run prob=mock slots=8 prims=16 seed=%d events=2 maxsteps=60 cbs=" % seed
 
     def total(cbs):
-        _, O, _ = run_harness(exe, base + cbs)
+        I, O, _ = run_harness(exe, base + cbs)
         if not O or not O[-1].startswith("end"):
             return None
+        d = model_agrees(I, O)
+        if d is not None:
+            PROBE_DIVERGED.append({"scenario": base + cbs, "op_index": d[0], "impl": d[1][:400],
+                                   "model": d[2][:400]})
         return [p.split()[1:] for p in O[-1].split(" | ")[1:]]
 
     a, b, both = total("calo:2"), total("calo:3"), total("calo:2;calo:3")
@@ -535,6 +552,10 @@ def run(ctx):
                        "contradicts": "Props/C17 " + key})
     n_probe = own_volume_calo_probe(ctx, exe, ctx.rng)
     n_probe += single_slot_probe(ctx, exe, ctx.rng)
+    if PROBE_DIVERGED:
+        diverged += PROBE_DIVERGED
+        broken.append("correspondence: the model does not reproduce the real outputs of the "
+                      f"known-defect probes ({len(PROBE_DIVERGED)} scenarios)")
 
     if broken and not ctx.violations:
         ctx.violation("unproved", "; ".join(broken)[:600],
@@ -555,6 +576,7 @@ def run(ctx):
                 "lines",
         "scenarios": len(scenarios), "corpus_scenarios": n_corpus, "stats": stats,
         "diverging_scenarios": len(diverged), "oracle_failures": len(oracle_fail),
+        "known_defect_probes_reproduced_by_model": not PROBE_DIVERGED,
         "samples": scenarios[n_corpus:n_corpus + 4],
         "correspondence_broken": broken,
     })
